@@ -110,7 +110,8 @@ package baseorbitdb
 //@   ensures result1 == nil ==> result == parsedAddr(pjoin(strs("/orbitdb", cidStr(manifestHash(name, storeType, pjoin(strs("/ipfs", cidStr(accessControllerAddress))))), name)))
 //@   modifies "F:baseorbitdb.DetermineAddressOptions.AccessController", "F:baseorbitdb.DetermineAddressOptions.OnlyHash"
 
-// Create: creating over a database that is already known locally is refused unless overwrite is requested —
+// Create: creating over a database that is already known locally is refused unless overwrite is requested (the
+// marker is looked up in the very cache directory it is written to) —
 // nothing is written to the cache and no store is created on that path.
 //@ func (*orbitDB).Create
 //@   props C14
@@ -118,15 +119,13 @@ package baseorbitdb
 //@   requires o.logger != nil && o.cache != nil && o.stores != nil
 //@   requires options != nil && options.AccessController != nil ==> ref(options.AccessController) != 0
 //@   ghost ow := options != nil && options.Overwrite != nil && deref(options.Overwrite)
+//@   assert @ before call o.haveLocalData#1: c == cacheFor(o.cache, o.directory, addrStr(dbAddress))
 //@   assert @ before call o.addManifestToCache#1: haveDB ==> ow
 //@   assert @ before call o.Open#1: dsHas(cacheFor(o.cache, o.directory, addrStr(dbAddress)))[mkey(dbAddress)] && (haveDB ==> ow)
 //@   modifies *
 
 //@ extern param:(*orbitDB).Open.cancel as cancel()
 //@   modifies nothing
-// decoding the manifest fills the manifest struct (arbitrary content: it comes from the network)
-//@ extern github.com/ipfs/go-ipld-cbor.DecodeInto as DecodeInto(b, v) (err)
-//@   modifies "F:utils.Manifest.Name", "F:utils.Manifest.Type", "F:utils.Manifest.AccessController"
 
 // Open: a local-only open of a database that is not known locally is refused before anything is fetched or
 // created; an invalid address is refused unless creation is requested together with a store type.
